@@ -145,14 +145,15 @@ def streams(ctx: lib.Ctx) -> None:
     max_size, depth = ctx.n(4, 5), 3
     small = list(G.exhaustive(max_size, depth))
     n_small_all = len(small)
-    cap = ctx.n(2600, 10 ** 9)
+    cap = ctx.n(4000, 60000)
     if len(small) > cap:
-        # keep everything up to size 3, sample the rest
-        keep = [f for f in small if G.size_of(f) <= 3]
-        rest = [f for f in small if G.size_of(f) > 3]
+        # keep everything up to size 3 (quick) / 4 (thorough), sample the rest
+        lim = 4 if ctx.thorough else 3
+        keep = [f for f in small if G.size_of(f) <= lim]
+        rest = [f for f in small if G.size_of(f) > lim]
         small = keep + rng.sample(rest, max(0, cap - len(keep)))
     flows += small
-    n_rand = ctx.n(700, 12000)
+    n_rand = ctx.n(1000, 12000)
     for i in range(n_rand):
         r = rng.random()
         if r < 0.5:
@@ -253,7 +254,7 @@ def streams(ctx: lib.Ctx) -> None:
 
     ctx.count("linearize", len(flows), nontrivial_keys=nontrivial, validated=len(flows),
               exhaustive_small_scope=f"all flows with <= {max_size} nodes, nesting <= {depth}: "
-              f"{n_small_all} flows" + ("" if len(small) == n_small_all else f" ({len(small)} kept: all of size<=3 + sample)"),
+              f"{n_small_all} flows" + ("" if len(small) == n_small_all else f" ({len(small)} kept: all up to size {4 if ctx.thorough else 3} + sample)"),
               random_flows=n_rand, size_histogram={str(k): v for k, v in sorted(sizes.items())},
               node_kinds=kinds, impl_exceptions=n_exc, unrepresentable=n_unrep)
     ctx.count("validate", n_oracle, validated=n_oracle,
